@@ -325,6 +325,7 @@ type c35Ref struct {
 func c35(c *vc.Ctx) {
 	c.Level = "fault_enumeration"
 	c.Reruns = 1
+	c.BatchSize = 1 // every case runs several processes
 	tmp, err := os.MkdirTemp("", "c35-")
 	if err != nil {
 		fmt.Fprintln(os.Stderr, err)
@@ -423,6 +424,7 @@ func c35(c *vc.Ctx) {
 	var refs sync.Map // scenario key -> *c35Ref
 	var totalBoundaries atomic.Int64
 	var unclassified sync.Map
+	var divergedScenarios sync.Map
 	run := func(sc c35Scenario, k int) (*c35Env, *crash.Result, error) {
 		e, err := c35Setup(bin, tmp, shm, sc, contents)
 		if err != nil {
@@ -454,15 +456,31 @@ func c35(c *vc.Ctx) {
 		if v, ok := refs.Load(sc.key()); ok {
 			return v.(*c35Ref)
 		}
+		// The sequence of relevant calls is not perfectly reproducible (the
+		// kernel may hand out a directory listing in two or three getdents64
+		// calls): the reference is the first sequence seen twice in up to
+		// five uninterrupted runs, so that an outlier run does not become
+		// the reference.
 		ref := &c35Ref{}
-		e, r, err := run(sc, 0)
-		if err != nil {
-			ref.err = err
-		} else {
+		seen := map[string]bool{}
+		for attempt := 0; attempt < 5; attempt++ {
+			e, r, err := run(sc, 0)
+			if err != nil {
+				ref.err = err
+				break
+			}
 			ref.sigs = e.sigs(r.Relevant)
 			ref.total = r.TotalSyscalls
 			ref.status = strings.ReplaceAll(status(r), crash.NormPath(e.roots[0]), "$R")
 			e.close()
+			j := strings.Join(ref.sigs, "\n")
+			if seen[j] {
+				break
+			}
+			seen[j] = true
+			if attempt > 0 {
+				c.Count("reference_run_disagreements", 1)
+			}
 		}
 		v, loaded := refs.LoadOrStore(sc.key(), ref)
 		if !loaded && ref.err == nil {
@@ -504,6 +522,7 @@ func c35(c *vc.Ctx) {
 		var e *c35Env
 		var r *crash.Result
 		var got []string
+		diverged := false
 		for attempt := 0; ; attempt++ {
 			var err error
 			e, r, err = run(sc, t.K)
@@ -519,10 +538,17 @@ func c35(c *vc.Ctx) {
 				break
 			}
 			if attempt == 2 {
-				e.close()
-				return &vc.Fail{Key: key + " trace-divergence", Class: "trace-divergence",
-					Msg:    fmt.Sprintf("%s: the relevant system calls of this run are not the reference sequence (prefix), so crash points cannot be addressed by index", key),
-					Detail: map[string]any{"reference": ref.sigs, "got": got}}
+				// Not a property violation: the run is still a real run
+				// killed at a real system-call boundary, so its outcome is
+				// judged below like any other; what is lost is the guarantee
+				// that index k addresses the k-th boundary of the reference
+				// run, which is reported as a cap (exhaustive=false).
+				diverged = true
+				if _, dup := divergedScenarios.LoadOrStore(sc.key(), true); !dup {
+					c.CapNote("scenario %s: a run's relevant system calls were not the reference sequence in 3 attempts; its crash points are real but not addressed by reference index", sc.key())
+				}
+				c.Count("runs_judged_despite_trace_divergence", 1)
+				break
 			}
 			c.Count("trace_divergence_retries", 1)
 			e.close()
@@ -532,12 +558,22 @@ func c35(c *vc.Ctx) {
 		if t.K > 0 {
 			at = "before " + ref.sigs[t.K-1]
 		}
+		if diverged {
+			at = "completed"
+			if r.Killed && len(got) > 0 {
+				at = "before " + got[len(got)-1]
+			}
+		}
 		fail := func(what, format string, args ...any) *vc.Fail {
 			return &vc.Fail{Key: key + " " + what, Msg: fmt.Sprintf("shfmt -w, scenario %s, %s (crash point %d of %d): ", sc.key(), at, t.K, len(ref.sigs)) + fmt.Sprintf(format, args...),
 				Detail: map[string]any{"reference": ref.sigs, "status": status(r)}}
 		}
 		if r.TimedOut {
 			return fail("timeout", "the process blocked and was stopped by the timeout guard")
+		}
+		if diverged && !r.Killed && !r.TimedOut {
+			// fewer relevant calls than k in this run: it ran to completion
+			t.K = 0
 		}
 		if t.K > 0 && (!r.Killed || r.Signal != syscall.SIGKILL) {
 			return &vc.Fail{Key: key + " harness", Msg: fmt.Sprintf("%s: the process was not killed at the crash point (%s)", key, status(r)), Class: "harness-error"}
